@@ -162,6 +162,46 @@ def _kw_def(name, kws):
             f"Definition {name} : list (option bool) := [" + "; ".join(one(k) for k in KW) + "].\n")
 
 
+def _redirect_facts(repo, rel, clsname):
+    """[(guard, reset) for stdout, stderr] from _enable_redirect_io / _disable_redirect_io of the class:
+    guard = the enabling `if` also requires `self._restore_X is None`; reset = disable sets it back to None"""
+    tree, _ = parse(repo, rel)
+    cls = find_class(tree, clsname)
+    en = find_func(cls.body, "_enable_redirect_io")
+    dis = find_func(cls.body, "_disable_redirect_io")
+    body = [n for n in en.body if not (isinstance(n, ast.Expr) and isinstance(n.value, ast.Constant))]
+    if not (len(body) == 1 and isinstance(body[0], ast.If) and ast.unparse(body[0].test) == "self.console.is_terminal"
+            and not body[0].orelse):
+        raise Untranslatable(f"{clsname}._enable_redirect_io: not a single `if self.console.is_terminal:`")
+    ifs = body[0].body
+    dbody = [n for n in dis.body if not (isinstance(n, ast.Expr) and isinstance(n.value, ast.Constant))]
+    out = []
+    for i, x in enumerate(("stdout", "stderr")):
+        if len(ifs) != 2 or len(dbody) != 2 or not isinstance(ifs[i], ast.If) or not isinstance(dbody[i], ast.If):
+            raise Untranslatable(f"{clsname}: redirect methods are not two `if` statements")
+        test = ast.unparse(ifs[i].test)
+        if test == f"self._redirect_{x}":
+            guard = False
+        elif test == f"self._redirect_{x} and self._restore_{x} is None":
+            guard = True
+        else:
+            raise Untranslatable(f"{clsname}._enable_redirect_io: test `{test}` not recognised")
+        stm = [ast.unparse(n) for n in ifs[i].body]
+        if ifs[i].orelse or stm != [f"self._restore_{x} = sys.{x}", f"sys.{x} = FileProxy(self.console, sys.{x})"]:
+            raise Untranslatable(f"{clsname}._enable_redirect_io: body for {x} not recognised: {stm}")
+        if ast.unparse(dbody[i].test) != f"self._restore_{x}" or dbody[i].orelse:
+            raise Untranslatable(f"{clsname}._disable_redirect_io: test for {x} not recognised")
+        stm = [ast.unparse(n) for n in dbody[i].body]
+        if stm == [f"sys.{x} = self._restore_{x}", f"self._restore_{x} = None"]:
+            reset = True
+        elif stm == [f"sys.{x} = self._restore_{x}"]:
+            reset = False
+        else:
+            raise Untranslatable(f"{clsname}._disable_redirect_io: body for {x} not recognised: {stm}")
+        out.append((guard, reset))
+    return out
+
+
 @generator("FileProxyFacts.v")
 def gen_file_proxy_facts(repo):
     tree, _ = parse(repo, "rich/file_proxy.py")
@@ -173,4 +213,10 @@ def gen_file_proxy_facts(repo):
             + "(* T3: FileProxy.write prints the decoded lines (Text) rather than the raw string *)\n"
             + f"Definition WRITE_DECODES : bool := {b(wd)}.\n" + _kw_def("WRITE_PRINT_KW", wk)
             + "\n(* T3: FileProxy.flush prints AnsiDecoder.decode_line(pending) rather than the raw string *)\n"
-            + f"Definition FLUSH_DECODES : bool := {b(fd)}.\n" + _kw_def("FLUSH_PRINT_KW", fk))
+            + f"Definition FLUSH_DECODES : bool := {b(fd)}.\n" + _kw_def("FLUSH_PRINT_KW", fk)
+            + "\n(* T3: _enable_redirect_io / _disable_redirect_io, for stdout and stderr: (the enabling test also\n"
+              "   requires `self._restore_X is None`, disabling resets `self._restore_X = None`) *)\n"
+            + "".join(f"Definition {name} : list (bool * bool) := ["
+                      + "; ".join(f"({b(g)}, {b(r)})" for g, r in _redirect_facts(repo, rel, cls_)) + "].\n"
+                      for name, rel, cls_ in (("LIVE_REDIRECT", "rich/live.py", "Live"),
+                                              ("PROGRESS_REDIRECT", "rich/progress.py", "Progress"))))
